@@ -21,10 +21,12 @@ def one(seed):
             return {"seed": seed, "error": "patch does not apply at HEAD: " + r.stderr[-200:]}
         env = dict(os.environ, VERIF_REPO=wt)
         r = subprocess.run([sys.executable, os.path.join(HERE, "tools", "cert_sweep.py"), "ALL",
-                            "plain,full,wide,hints,hard,deep,lazycon,soft,softx,reuse,snapshot", n, "0"], env=env, capture_output=True, text=True)
+                            "plain,full,wide,hints,hard,deep,lazycon,soft,softx,reuse,snapshot,async,asynchard", n, "0"], env=env, capture_output=True, text=True)
         viol = [l for l in r.stdout.split("\n") if l.startswith("VIOL")]
         props = sorted(set(l.split()[1] for l in viol))
-        return {"seed": seed, "exit": r.returncode, "props_flagged": props, "first": [v[:260] for v in viol[:4]],
+        caught = [l for l in r.stdout.split("\n") if l.startswith("CAUGHT_BY_CHECKS")]
+        caught = json.loads(caught[0].split(" ", 1)[1]) if caught else None
+        return {"seed": seed, "exit": r.returncode, "props_flagged": props, "caught_by_checks": caught, "first": [v[:260] for v in viol[:4]],
                 "err": r.stderr[-300:] if r.returncode else ""}
     finally:
         subprocess.run("git -C /repo worktree remove --force %s" % wt, shell=True, capture_output=True)
